@@ -13,7 +13,7 @@ RULE = ("for each of the 4 configured networks: chains whose relayer key is ECDS
 def run(tier, seed, work):
     quick = tier == "quick"
     mc = [("MC_Bridge.tla", "MC_Bridge_deposits.cfg")]
-    per, depth, nj = (2, 40, 4) if quick else (12, 50, 4)
+    per, depth, nj = (4, 40, 4) if quick else (12, 50, 4)
     groups = []
     for net in ("regtest", "mainnet", "testnet3", "signet"):
         groups.append(("Trace_Bridge.tla", "Trace_Bridge_C17_%s.cfg" % net, bc.jobs("c17", seed + 3, per, depth, nj, mode="addr", network=net)))
